@@ -437,6 +437,33 @@ def parse_coq_eval(out: str) -> list[str]:
     return vals
 
 
+def stateless_screen(ctx, pid):
+    """Obligation of every check: no hidden state (mutated defaults, written module-level containers, globals, new
+    memoisation) in the files the property depends on beyond the pinned, reviewed sites of translate/t_stateless.py."""
+    from translate import t_stateless
+
+    try:
+        sites = t_stateless.scan(REPO)
+    except t_stateless.Unsupported as ex:
+        ctx.obligation("T-stateless screen of bermuda/ (operations are functions of their arguments)", False, str(ex))
+        return
+    new, gone = t_stateless.compare(sites)
+    files = set()
+    for line in open(ROOT / "properties.jsonl"):
+        p = json.loads(line)
+        if p["id"] == pid:
+            files = set(p["anchors"]["files"])
+    shared = ("bermuda/base/", "bermuda/triangle.py", "bermuda/date_utils.py", "bermuda/factory.py", "bermuda/errors.py")
+    mine = [s for s in new if s.split()[1].split(":")[0] in files or s.split()[1].startswith(shared)]
+    other = [s for s in new if s not in mine]
+    if other:
+        ctx.notes.append("T-stateless: new state sites in files this property does not depend on: " + "; ".join(other)[:600])
+    ctx.trusted.append(f"T-stateless: {len(sites)} state sites in bermuda/ ({len(sites) - len(new)} pinned with a reason: memoised "
+                       "accessors, build_plot_data's cache, read-only list/dict/date defaults, the S3 client)")
+    ctx.obligation("T-stateless screen: no state outliving a call in the files this property depends on, beyond the pinned sites",
+                   not mine, "new state sites: " + "; ".join(mine))
+
+
 def main(argv=None):
     import argparse
     import importlib
@@ -471,9 +498,11 @@ def main(argv=None):
         from harness import factory_common
 
         factory_common.run(ctx)
-        # sequences of public calls: the property holds for a call whatever was called before it in the process
+        # the models are FUNCTIONS of the arguments: screen the source for state that outlives a call (T-stateless), then
+        # run the sequences of public calls (the property holds for a call whatever was called before it in the process)
         from harness import statecarry
 
+        stateless_screen(ctx, pid)
         statecarry.run_for(ctx, pid)
     except Exception as ex:  # machinery failure is reported, never silently passed
         import traceback
